@@ -297,3 +297,68 @@ func Unwrap(v ssa.Value) ssa.Value {
 		}
 	}
 }
+
+// TraceEvent is one labelled instruction on a path.
+type TraceEvent struct {
+	Label string
+	Ins   ssa.Instruction
+}
+
+// PathTraces enumerates the paths from the entry of fn to a Return (each CFG edge taken at most
+// `edgeLimit` times per path, so loops are unrolled at most that often) and returns, for each path,
+// the sequence of instructions selected by pick. Paths are deduplicated by their label sequence.
+func PathTraces(fn *ssa.Function, pick func(ssa.Instruction) (string, bool), edgeLimit, maxPaths int) (traces [][]TraceEvent, truncated bool) {
+	type edge struct{ a, b *ssa.BasicBlock }
+	seen := map[string]bool{}
+	var cur []TraceEvent
+	used := map[edge]int{}
+	var walk func(b *ssa.BasicBlock)
+	walk = func(b *ssa.BasicBlock) {
+		if truncated {
+			return
+		}
+		n0 := len(cur)
+		for _, ins := range b.Instrs {
+			if l, ok := pick(ins); ok {
+				cur = append(cur, TraceEvent{l, ins})
+			}
+			if _, isRet := ins.(*ssa.Return); isRet {
+				var key []byte
+				for _, e := range cur {
+					key = append(key, e.Label...)
+					key = append(key, 0)
+				}
+				if !seen[string(key)] {
+					seen[string(key)] = true
+					traces = append(traces, append([]TraceEvent(nil), cur...))
+					if len(traces) >= maxPaths {
+						truncated = true
+					}
+				}
+			}
+		}
+		for _, s := range b.Succs {
+			e := edge{b, s}
+			if used[e] >= edgeLimit {
+				continue
+			}
+			used[e]++
+			walk(s)
+			used[e]--
+		}
+		cur = cur[:n0]
+	}
+	if len(fn.Blocks) > 0 {
+		walk(fn.Blocks[0])
+	}
+	return
+}
+
+// Labels joins the labels of a trace.
+func Labels(t []TraceEvent) []string {
+	var out []string
+	for _, e := range t {
+		out = append(out, e.Label)
+	}
+	return out
+}
